@@ -55,6 +55,13 @@ TEXT = {
          "Trusted: Lean kernel; File drop/from_raw_fd semantics; the scripted recv_with_fds stands for SCM_RIGHTS."),
  "C13": ("Theorems: at the end of a header block the specification emits exactly one interim response carrying the request's version iff Expect: 100-continue was seen and 0 < Content-Length <= limit (cont_iff), nothing else ever emits one (cont_only_at_end_of_headers, body_byte_no_cont), it is produced by the blank line alone before any body byte (cont_before_body), it is a 100 with no Content-Length (cont_response); server: after a read that leaves something to write the connection waits for writability (server_switches_to_out). Tied to the connection under every schedule by C01.tryRead_refines. Correspondence incl. real sockets.",
          "Trusted: Lean kernel; hand model checked differentially; header recognition of Expect is C15's subject."),
+ "C02": ("Theorems: within a request line the outcome is decided in the order shape (fewer than two SP) -> method -> URI (empty, then not UTF-8) -> version, and a line is accepted iff it is METHOD SP URI SP VERSION with the fields being those bytes (reqline_precedence, reqline_accept_iff); "
+         "both directions of the grammar equivalence on the byte-at-a-time specification: grammar_accepted (request line, non-empty header lines, every line within the limit, acceptable header fold, declared length within the payload limit, body of exactly that length => exactly one delivery with those pieces verbatim, interim response iff asked for, automaton ready for the next request) and delivered_is_grammar (exactly one delivery with nothing left over => the bytes ARE such a request and the fields are its pieces); "
+         "prefix_requests_delivered and first_bad_header_decides: everything before the first offending element is delivered and that element decides the error. For all byte strings, all B > 0. Tied to the connection for every read schedule by C01. Correspondence: every corruption of the quantifier, implementation vs spec automaton vs code-level model.",
+         "Trusted: Lean kernel; hand model checked differentially; header-line acceptability is C15's subject; UTF-8 validity as modelled (compared with std incl. error positions)."),
+ "C14": ("Theorems between the one-shot parser model (request.rs) and the byte-at-a-time specification instantiated with the crate's own line parsers: oneshot_sound (one-shot accepts => within the line and payload limits the first delivery is the identical request), conn_complete (exactly one delivery with nothing left over and not a GET with a body => one-shot accepts with the same result), get_with_body_rejected (that exception is real), max_rejects / max_irrelevant. "
+         "Key lemmas: the first CRLFCRLF after the request line is where the line scan meets its first empty line; split on CRLF = iterated first-CRLF split; block UTF-8 iff its lines are; an accepted request line has at least 14 bytes. Correspondence in both directions on the implementation alone and against both models.",
+         "Trusted: Lean kernel; hand models of Request::try_from and of the connection checked differentially; the connection side is tied to the specification by C01."),
 }
 TECH = "Lean 4 theorems over a hand-written model + differential correspondence check (Rust harness vs compiled Lean driver)"
 
